@@ -194,12 +194,42 @@ func (s *orRuleSetLoader) makeTypeFromRuleSet() {
 	typ := schema.New()
 	typ.SetRootNode(s.typeRoot)
 
+	declaredType := ""
+	if typeConstraint != nil {
+		declaredType = typeConstraint.(constraint.BytesKeeper).Bytes().Unquote().String()
+	}
+
 	CompileBasic(&typ, false)
+	s.checkCompatibilityOfConstraints(declaredType)
 
 	lex := s.node.BasisLexEventOfSchemaForNode()
 	name := s.rootSchema.AddUnnamedType(&typ, lex.File(), lex.Begin())
 
 	c.AddNameWithASTNode(name, s.typeRoot.Type().String(), an)
+}
+
+// checkCompatibilityOfConstraints ensures that every rule of the rule-set can
+// be used with the JSON type the rule-set declares. The schema checker skips
+// mixed nodes, so nobody else does it.
+func (s *orRuleSetLoader) checkCompatibilityOfConstraints(declaredType string) {
+	if declaredType == "" {
+		return
+	}
+	if _, ok := jsonTypesHandler[declaredType]; ok {
+		// Not a JSON type ("decimal", "email", "enum"...): the compiler
+		// has its own checks for them.
+		return
+	}
+	t := s.typeRoot.Type()
+	err := s.typeRoot.ConstraintMap().Each(func(_ constraint.Type, v constraint.Constraint) error {
+		if !v.IsJsonTypeCompatible(t) {
+			return errors.Format(errors.ErrUnexpectedConstraint, v.Type().String(), declaredType)
+		}
+		return nil
+	})
+	if err != nil {
+		panic(err)
+	}
 }
 
 func (s *orRuleSetLoader) makeTypeASTNode(
